@@ -85,6 +85,12 @@ class C19(Property):
             # restored values of their sources; setting a connected input would write the source
             # through the inverse unit conversion and disturb it by an ulp)
             pre = self.pathname + '.'
+            # ... except unconnected inputs: their auto-IVC source carries the input's promoted name,
+            # so Problem.load_case leaves it to this override as well
+            for abs_name in (cs.inputs.absolute_names() if cs.inputs is not None else []):
+                if abs_name.startswith(pre) and \
+                        prob.model.get_source(abs_name).startswith('_auto_ivc.'):
+                    prob.model.set_val(abs_name, cs.inputs[abs_name])
             for abs_name in cs.outputs.absolute_names():
                 if abs_name.startswith(pre):
                     prob.model.set_val(abs_name, cs.get_val(abs_name))
